@@ -699,6 +699,54 @@ def request_grid_wide(part, tier='quick'):
                                        "DeriveKey request %s/%s length=%d %s from a %d-byte base: stored %s, "
                                        "reference %s" % (method.name, h, length, ctx['params'], len(km),
                                                          (val or b'').hex()[:40], want.hex()[:40]), ctx)
+        # ---- C-enc. DeriveKey by ENCRYPTION: the derived key is the cipher text of the derivation data
+        # under the base key - a function of the request alone. Every mode x IV given / absent x twice:
+        # an answer is either a refusal or the reference value, it consumes no entropy, and asking
+        # twice gives the same key.
+        for (uid, km) in bases:
+            if len(km) not in (16, 24, 32):
+                continue
+            for mode in ('CBC', 'ECB', 'CFB', 'OFB', 'CTR'):
+                for iv in (b'\x09' * 16, None):
+                    vals = []
+                    for rep_ in range(2):
+                        params = W.cattrs.DerivationParameters(
+                            cryptographic_parameters=W.crypto_params(
+                                cryptographic_algorithm=ALG.AES, block_cipher_mode=MODE[mode],
+                                padding_method=PAD.PKCS5),
+                            derivation_data=b'derivation data!' * 2, initialization_vector=iv)
+                        calls0 = len(W.ENTROPY.calls)
+                        r = w.do(V, W.p_derive_key([uid], DM.ENCRYPT, params=params,
+                                                   attrs=W.sym_attrs(length=128, masks=[CUM.ENCRYPT])))
+                        part.count('cases')
+                        part.count('wide_requests')
+                        ctx = {'grid': 'requests-wide', 'family': 'derive-encrypt', 'mode': mode,
+                               'iv': iv is not None, 'keying_bytes': len(km)}
+                        part.counters.setdefault('_out', set()).add(('w-derive-enc', mode, iv is not None,
+                                                                     r.items[0].ok()))
+                        if not r.items[0].ok():
+                            continue
+                        part.count('wide_derive_ok')
+                        if W.ENTROPY.calls[calls0:]:
+                            part.violation("wide-derive-encrypt|entropy|%s" % mode,
+                                           "DeriveKey ENCRYPT/%s (IV %s) drew %s bytes from os.urandom: the derived "
+                                           "key cannot be re-derived" % (mode, 'given' if iv else 'absent',
+                                                                         W.ENTROPY.calls[calls0:]), ctx)
+                        vals.append(_key_material(w.do(V, W.p_get(r.uid()))))
+                        if iv is not None or mode == 'ECB':
+                            try:
+                                want = R.encrypt('AES', km, mode, b'derivation data!' * 2, iv, 'PKCS5')[0][:16]
+                            except Exception:   # noqa
+                                want = None
+                            if want is not None and vals[-1] != want:
+                                part.violation("wide-derive-encrypt|value|%s" % mode,
+                                               "DeriveKey ENCRYPT/%s: stored %s, reference %s" % (
+                                                   mode, (vals[-1] or b'').hex(), want.hex()), ctx)
+                    if len(vals) == 2 and vals[0] != vals[1]:
+                        part.violation("wide-derive-encrypt|not-reproducible|%s" % mode,
+                                       "two identical DeriveKey ENCRYPT/%s requests (IV %s) gave different keys "
+                                       "%s / %s" % (mode, 'given' if iv else 'absent', vals[0].hex(), vals[1].hex()),
+                                       ctx)
         # ---- C'. DeriveKey from TWO objects: the first is the keying object, a later secret data object
         # supplies the derivation data when the request carries none -------------------------------
         sec2_val = bytes(range(100, 130))
